@@ -639,6 +639,45 @@ func FixedCorpus() []*Unit {
 		out = append(out, un)
 	}
 
+	// ---- dashpath: directory and file names with dashes (identifiers derived from
+	// the path must be sanitised the same way everywhere)
+	{
+		f := NewFile("verif/billing-api/v1/invoice-v2.proto", "verif.billing_api.v1", GoRoot+"dashpath")
+		m := f.Msg("Invoice")
+		m.F("number", 1, S(String))
+		m.R("lines", 2, M("verif.billing_api.v1.Invoice.Line"))
+		ln := m.Nested("Line")
+		ln.F("cents", 1, S(Sint64))
+		f.Enum("State", "STATE_UNSPECIFIED", 0, "STATE_PAID", 1)
+		m.F("state", 3, E("verif.billing_api.v1.State"))
+		out = append(out, &Unit{Name: "dashpath", File: f, Label: []string{"proto path with dashes in directory and file name"}})
+	}
+
+	// ---- import public: pub_mid re-exports pub_base; pub_user reaches pub_base's
+	// types only through pub_mid
+	{
+		ub, fb := unit("pub_base", "file re-exported by another through import public")
+		fb.Enum("Tone", "TONE_UNSPECIFIED", 0, "TONE_LOUD", 2)
+		bm := fb.Msg("Base")
+		bm.F("id", 1, S(Int64))
+		bm.F("tone", 2, E("verif.pub_base.Tone"))
+		out = append(out, ub)
+		um, fm := unit("pub_mid", "import public of a file of another Go package")
+		fm.P.Dependency = append(fm.P.Dependency, "verif/pub_base.proto")
+		fm.P.PublicDependency = []int32{0}
+		mm := fm.Msg("Mid")
+		mm.F("b", 1, M("verif.pub_base.Base"))
+		mm.R("tones", 2, E("verif.pub_base.Tone"))
+		out = append(out, um)
+		uu, fu := unit("pub_user", "uses types it only sees through another file's import public")
+		fu.P.Dependency = append(fu.P.Dependency, "verif/pub_mid.proto")
+		mu := fu.Msg("User")
+		mu.F("mid", 1, M("verif.pub_mid.Mid"))
+		mu.F("base", 2, M("verif.pub_base.Base"))
+		mu.Map("by_tone", 3, String, E("verif.pub_base.Tone"))
+		out = append(out, uu)
+	}
+
 	// ---- nopkg: a file without a proto package, whose name has no directory and
 	// several dots; its types live in the root namespace
 	{
